@@ -123,6 +123,7 @@ def run(ctx):
         case, out = meta[i]
         ctx.disagree('fit_candidates kernel', case, 'FitCand model differs', out)
     smoothers(ctx)
+    direct_smoother_calls(ctx)
 
 
 def smoothers(ctx):
@@ -275,6 +276,82 @@ def smoothers(ctx):
                         ctx.fail('smoothing/%s/not-polynomial' % sm[0],
                                  'P is not (I - c K)^%d T with c in [omega/rho, omega/(0.85 rho)]: best c = %.6g (allowed %.6g..%.6g), |P - poly| = %.3g'
                                  % (deg, cfit, lo, hi, err), case)
+
+
+def direct_smoother_calls(ctx):
+    """the prolongation smoothers called directly: a NONSYMMETRIC smoothing matrix (row sums and column sums of |S| differ) for
+    the 'local' weighting, and the legacy SciPy matrix classes"""
+    import pyamg
+    from pyamg.gallery import poisson
+    from pyamg.aggregation.smooth import jacobi_prolongation_smoother, richardson_prolongation_smoother
+    from pyamg.strength import symmetric_strength_of_connection
+    rng = ctx.sub('direct')
+    A = sp.csr_array(poisson((6, 5), format='csr'))
+    n = A.shape[0]
+    np.random.seed(ctx.seed)
+    ml = pyamg.smoothed_aggregation_solver(A, max_coarse=4, keep=True, smooth=None)
+    T = sp.csr_array(ml.levels[0].P)
+    C = sp.csr_array(symmetric_strength_of_connection(A, 0.25))
+    B = np.asarray(ml.levels[1].B)          # (the COARSE candidates: T @ B reproduces the fine ones)
+    dsc = np.array([1.0 + 2.0 * rng.random() for _ in range(n)])
+    for tag, S in (('row-scaled', sp.csr_array(sp.diags_array(dsc) @ A)), ('column-scaled', sp.csr_array(A @ sp.diags_array(dsc))),
+                   ('upwind', sp.csr_array(A + 0.4 * sp.diags_array(np.ones(n - 1), offsets=1, shape=(n, n))))):
+        Sd, Td = S.toarray(), T.toarray()
+        for deg in (1, 2):
+            for om in (4.0 / 3.0, 1.0):
+                case = dict(direct='jacobi/local', smoothing_matrix=tag, degree=deg, omega=om)
+                ctx.mark(case)
+                try:
+                    P = sp.csr_array(jacobi_prolongation_smoother(S, T, C, B, omega=om, degree=deg, weighting='local')).toarray()
+                except Exception as e:   # noqa
+                    ctx.fail('smoothing/jacobi/local/raises', repr(e), case)
+                    continue
+                ctx.case(('direct', 'jacobi-local', tag, deg, om), True)
+                ctx.count('direct:jacobi/local')
+                K = Sd / np.abs(Sd).sum(1)[:, None]            # Gershgorin weights: ROW sums of |S|
+                want = np.linalg.matrix_power(np.eye(n) - om * K, deg) @ Td
+                if _nn(np.abs(P - want).max()) > 1e-10 * (1 + np.abs(want).max()):
+                    ctx.fail('smoothing/jacobi/local/not-polynomial', "weighting 'local' on a %s matrix: P differs from (I - omega Dg^-1 S)^%d T (Dg = row sums of |S|) by %.3g"
+                             % (tag, deg, np.abs(P - want).max()), case)
+    # legacy matrix classes: the same data as csr_matrix / bsr_matrix gives the same prolongator
+    for tag, kw in (('jacobi', {}), ('jacobi/filter', {'filter_entries': True}), ('jacobi/filter/local', {'filter_entries': True, 'weighting': 'local'}),
+                    ('jacobi/block', {'weighting': 'block'})):
+        case = dict(direct=tag, input_class='csr_matrix')
+        ctx.mark(case)
+        try:
+            with warnings.catch_warnings():
+                warnings.simplefilter('ignore')
+                # (the filtered variant works on block storage; the weights come from a randomly started spectral-radius estimate:
+                # same seed for both calls)
+                if kw.get('filter_entries'):
+                    arr = [sp.bsr_array(M_, blocksize=(1, 1)) for M_ in (A, T, C)]
+                    mat = [sp.bsr_matrix(M_, blocksize=(1, 1)) for M_ in (A, T, C)]
+                else:
+                    arr = [A, T, C]
+                    mat = [sp.csr_matrix(M_) for M_ in (A, T, C)]
+                np.random.seed(ctx.seed + 3)
+                Pa = sp.csr_array(jacobi_prolongation_smoother(arr[0], arr[1], arr[2], B, **kw)).toarray()
+                np.random.seed(ctx.seed + 3)
+                Pm = sp.csr_array(jacobi_prolongation_smoother(mat[0], mat[1], mat[2], B, **kw)).toarray()
+        except Exception as e:   # noqa
+            ctx.fail('smoothing/%s/csr_matrix/raises' % tag, repr(e), case)
+            continue
+        ctx.case(('direct', tag, 'csr_matrix'), True)
+        ctx.count('direct:legacy-class')
+        if Pa.shape != Pm.shape or _nn(np.abs(Pa - Pm).max()) > 1e-12 * (1 + np.abs(Pa).max()):
+            ctx.fail('smoothing/%s/csr_matrix-differs' % tag, 'csr_matrix inputs give another prolongator than csr_array inputs (max diff %.3g, nnz %d vs %d)'
+                     % (np.abs(Pa - Pm).max() if Pa.shape == Pm.shape else float('nan'), np.count_nonzero(Pm), np.count_nonzero(Pa)), case)
+    for tag, fsm in (('richardson', richardson_prolongation_smoother),):
+        case = dict(direct=tag, input_class='csr_matrix')
+        try:
+            np.random.seed(ctx.seed + 3)
+            Pa = sp.csr_array(fsm(A, T)).toarray()
+            np.random.seed(ctx.seed + 3)
+            Pm = sp.csr_array(fsm(sp.csr_matrix(A), sp.csr_matrix(T))).toarray()
+            if _nn(np.abs(Pa - Pm).max()) > 1e-12 * (1 + np.abs(Pa).max()):
+                ctx.fail('smoothing/%s/csr_matrix-differs' % tag, 'max diff %.3g' % np.abs(Pa - Pm).max(), case)
+        except Exception as e:   # noqa
+            ctx.fail('smoothing/%s/csr_matrix/raises' % tag, repr(e), case)
 
 
 def search(ctx):
